@@ -56,7 +56,7 @@ type factInfo struct {
 	tracked map[ssa.Value]bool
 	byName  map[string]ssa.Value
 	live    map[ssa.Value]map[*ssa.BasicBlock]bool // blocks at whose entry a fact about v is still useful
-	defsIn  map[*ssa.BasicBlock][]ssa.Value         // tracked non-phi values defined in the block
+	defsIn  map[*ssa.BasicBlock][]ssa.Value        // tracked non-phi values defined in the block
 }
 
 func (fx *factInfo) active() bool { return fx != nil && len(fx.tracked) > 0 }
